@@ -62,7 +62,8 @@ class DM14Server:
         ):
             self._ca.unsubscribe(self._parse_dm16)
             self._send_dm16()
-            if (len(self.data)) <= 8:
+            if (len(self.data)) <= 7:
+                # the DM16 fitted into a single frame (length byte + up to 7 data bytes)
                 self.proceed = True
                 self.state = ResponseState.SEND_OPERATION_COMPLETE
                 self._ca.subscribe(self.parse_dm14)
@@ -236,7 +237,8 @@ class DM14Server:
             data.append(self.data[i])
 
         data.extend([0xFF] * (self.length - byte_count - 1))
-        if byte_count > 8:
+        if byte_count > 7:
+            # multi-packet DM16: the operation-completed DM15 follows the end-of-message acknowledge
             self._ca.subscribe(self._parse_dm16)
         self._ca.send_pgn(0, (self._pgn >> 8) & 0xFF, self.sa & 0xFF, 7, data)
 
@@ -256,7 +258,9 @@ class DM14Server:
             return
 
         length = min(data[0], len(data) - 1)
-        self.data_queue.put(data[1 : length + 1])
+        if self.state == ResponseState.WAIT_FOR_DM16:
+            # data of a write request (not the end-of-message acknowledge of a DM16 we sent)
+            self.data_queue.put(data[1 : length + 1])
         self._ca.unsubscribe(self._parse_dm16)
         self._ca.subscribe(self.parse_dm14)
         self.state = ResponseState.SEND_OPERATION_COMPLETE
